@@ -2,6 +2,7 @@
   C02 — no IKE_SA is established without a valid AUTH over the real exchange.
 -/
 import PyIkev2.Model.Auth
+import PyIkev2.Proofs.HandlersAuth
 
 namespace PyIkev2.Props.C02
 open PyIkev2 PyIkev2.Impl
@@ -128,5 +129,73 @@ example : ikeAuthDecision 3 [1, 2] 3 [1, 2] true = .established true := by decid
 example : ikeAuthDecision 3 [1, 2] 3 [1, 2] false = .failed ∧ ikeAuthDecision 3 [1, 2] 2 [1, 2] true = .failed := by decide
 example : verifyAuth (κ := Unit) (fun k d => k ++ d) (fun _ _ _ => false) { psk := some [7], pub := none } 2 ([7] ++ keyPad ++ [9]) [9] = true := by
   decide
+
+/-! ### the whole model (shell + concrete handlers of Model/Handlers.lean)
+
+  `_verify_auth_payload` is an oracle of the model: its verdict is read from the tape.  The theorems below say that nothing
+  but a positive verdict of that oracle can take an IKE_SA out of the pre-established states, make it track a CHILD_SA or make
+  it ask the kernel for anything — for every request and response of every exchange type with any payloads, every value of
+  every other oracle (SPIs, nonces, DH values and outcomes, cookies, the AUTH payload we generate, kernel answers), in every
+  pre-established state, for histories of any length.  What the verdict itself means is the subject of the theorems above. -/
+
+/-- one handler call -/
+theorem c02_whole_model_handlers_before_auth (w : XWorld) (s : Sa) (now : Nat) (m : Msg) (w' : XWorld) (o : HOut)
+    (hp : PreAuthSa w s) :
+    (concreteHandlers.req w s now m = (w', some o) → PreAuthSa w' o.sa ∧ o.nl = []) ∧
+    (concreteHandlers.resp w s now m = (w', some o) → PreAuthSa w' o.sa ∧ o.nl = []) :=
+  ⟨concrete_req_preauth w s now m w' o hp, concrete_resp_preauth w s now m w' o hp⟩
+
+/-- one datagram through `process_message` -/
+theorem c02_whole_model_message_before_auth (w : XWorld) (s : Sa) (now : Nat) (p : Option Msg) (hp : PreAuthSa w s) :
+    let r := processMessage concreteHandlers w s now p
+    (PreAuthSa r.1 r.2.sa ∨ (r.2.sa.core.st = stDELETED ∧ r.2.sa.core.children = [])) ∧ r.2.nl = [] :=
+  ⟨(processMessage_preauth w s now p hp).1, (processMessage_preauth w s now p hp).2.1⟩
+
+/-- feed a history of datagrams to one IKE_SA object until it ends; collect the netlink requests -/
+def feed : XWorld → Sa → List (Nat × Option Msg) → List NlOp → XWorld × Sa × List NlOp
+  | w, s, [], acc => (w, s, acc)
+  | w, s, (now, p) :: rest, acc =>
+    if s.core.st = stDELETED then (w, s, acc)
+    else
+      let r := processMessage concreteHandlers w s now p
+      feed r.1 r.2.sa rest (acc ++ r.2.nl)
+
+/-- **no establishment without a positive AUTH verdict**: whatever arrives, in whatever order and however often, an IKE_SA
+    that starts before authentication is never ESTABLISHED (nor in any later state except DELETED), never tracks a CHILD_SA
+    and never asks the kernel for anything, as long as the oracle never answers that the peer's AUTH payload verified -/
+theorem c02_whole_model_never_established_without_verdict (inputs : List (Nat × Option Msg)) (w : XWorld) (s : Sa) (acc : List NlOp)
+    (hp : PreAuthSa w s ∨ (s.core.st = stDELETED ∧ s.core.children = [])) :
+    let r := feed w s inputs acc
+    (r.2.1.core.st < 10 ∨ r.2.1.core.st = stDELETED) ∧ r.2.1.core.children = [] ∧ r.2.2 = acc := by
+  induction inputs generalizing w s acc with
+  | nil =>
+    simp only [feed]
+    rcases hp with hp | hp
+    · exact ⟨Or.inl hp.1, hp.2.1, trivial⟩
+    · exact ⟨Or.inr hp.1, hp.2, trivial⟩
+  | cons inp rest ih =>
+    obtain ⟨now, p⟩ := inp
+    simp only [feed]
+    split
+    · rename_i hd
+      rcases hp with hp | hp
+      · have := hp.1; simp only [stDELETED] at hd; omega
+      · exact ⟨Or.inr hp.1, hp.2, rfl⟩
+    · rename_i hd
+      rcases hp with hp | hp
+      · have hstep := processMessage_preauth w s now p hp
+        have := ih (processMessage concreteHandlers w s now p).1 (processMessage concreteHandlers w s now p).2.sa
+          (acc ++ (processMessage concreteHandlers w s now p).2.nl) hstep.1
+        simpa [hstep.2.1] using this
+      · exact absurd hp.1 hd
+
+/-! non-vacuity: a fresh responder object with an arbitrary tape that lacks a positive verdict is "before authentication" -/
+example : PreAuthSa { tape := { vals := [.bytes [1], .verdict false, .flag true, .num 3] }, exts := [], confs := [] }
+    { core := { st := stINITIAL, isInit := false, mySpi := [1], peerSpi := [2], myId := 0, peerId := 0, keyed := false, lastResp := none,
+                request := none, rtxAt := 0, rtx := 0, dpdAt := 0, rekeyAt := 0, deleteAt := 0, dpd := 0, children := [], pending := [],
+                indices := [], myAddr := [10], peerAddr := [11], cookie := false }, succ := none } := by
+  refine ⟨by decide, rfl, rfl, ?_, ?_⟩
+  · intro v hv; simp at hv; rcases hv with rfl | rfl | rfl | rfl <;> simp
+  · intro e he; simp [XWorld.extOf] at he
 
 end PyIkev2.Props.C02
